@@ -5,7 +5,7 @@
    consumers: lisp_lex / lisp_read_string (Emacs Lisp), csv_read_rfc (RFC 4180), csv_read_bs
    (backslash escapes), xml_decode (XML character data).  All statements hold for ALL byte strings
    (no printability or length restriction) unless a hypothesis says otherwise. *)
-From LedgerV Require Import Base.Prelude Gen.CsvFormat Gen.PayeeRule Model.Escape Proofs.EscapeProofs Proofs.EscapeXmlProofs.
+From LedgerV Require Import Base.Prelude Gen.CsvFormat Gen.PayeeRule Gen.JoinRule Gen.XmlWalk Model.Escape Proofs.EscapeProofs Proofs.EscapeXmlProofs Proofs.EscapeJoinProofs.
 Local Open Scope Z_scope.
 
 (* ---- emacs ---- *)
@@ -158,6 +158,29 @@ Theorem emacs_payee_refuted : exists x p, In p (x_posts x) /\ post_payee x p <> 
 Proof. exists pw_xact, pw_post. split; [left; reflexivity|]. vm_compute. discriminate. Qed.
 Print Assumptions emacs_payee_refuted.
 
+(* ---- which postings the xml report lists (ptree.cc format_ptree::flush; Gen/XmlWalk.v is
+   regenerated from the source on every run and selects the statement): with the postings that
+   REACHED the handler the report lists exactly the displayed ones, as register, csv and emacs do;
+   with the postings calc_posts visited it lists more under --display (finding F1801) ---- *)
+Definition xml_walk_statement (w : xml_walk) : Prop :=
+  match w with
+  | WalkDisplayed => forall displayed all, xml_walked_rule w displayed all = displayed
+  | WalkVisited => (forall displayed all, displayed = all -> xml_walked_rule w displayed all = displayed)
+                   /\ exists displayed all, xml_walked_rule w displayed all <> displayed
+  | WalkUnrecognised => False
+  end.
+Definition wit_walk_post : post := mkPost 2 0 0 [65] (mkAmt [49] [80] None [49]) None None None None [] [].
+Theorem xml_walk_recognised : src_xml_walk <> WalkUnrecognised.
+Proof. discriminate. Qed.
+Print Assumptions xml_walk_recognised.
+Theorem xml_walk_faithful : xml_walk_statement src_xml_walk.
+Proof.
+  unfold src_xml_walk, xml_walk_statement; cbn;
+  first [ split; [intros d a H; symmetry; exact H | exists [], [wit_walk_post]; discriminate]
+        | intros d a; reflexivity ].
+Qed.
+Print Assumptions xml_walk_faithful.
+
 (* ---- csv written with quoted_rfc ---- *)
 Theorem csv_rfc_roundtrip : forall rows,
   Forall (fun row => row <> [] /\ Forall (fun c => fst c = QRfc) row) rows ->
@@ -191,6 +214,47 @@ Print Assumptions csv_default_row_fields.
 Theorem csv_default_all_quoted : forall qf, In qf src_csv_format -> fst qf = QDefault.
 Proof. apply all_quoter_dec. reflexivity. Qed.
 Print Assumptions csv_default_all_quoted.
+
+(* ---- join(), applied to the note column (report.cc fn_join; its chain of tests on the plain
+   `char` loop variable is regenerated into Gen/JoinRule.v on every run and evaluated by the model
+   on the signed value of the byte) ---- *)
+Theorem join_rule_recognised : src_join_clauses <> [].
+Proof. discriminate. Qed.
+Print Assumptions join_rule_recognised.
+
+(* join() changes nothing but line feeds: every other byte of the note - letters of any script,
+   i.e. bytes >= 0x80, and control bytes as well - reaches the csv row as written *)
+Theorem join_keeps_bytes : forall s, Forall byte s -> ~ In 10 s -> join_lines s = s.
+Proof. exact join_keeps_bytes_lemma. Qed.
+Print Assumptions join_keeps_bytes.
+
+(* the joined note holds no line feed (one record per line) *)
+Theorem join_one_line : forall s, Forall byte s -> ~ In 10 (join_lines s).
+Proof. exact join_one_line_lemma. Qed.
+Print Assumptions join_one_line.
+
+(* a reader that takes the two characters backslash n for a line break recovers a note of
+   several lines, provided the note has no backslash of its own *)
+Theorem join_unjoin : forall s, Forall byte s -> ~ In 92 s -> unjoin (join_lines s) = s.
+Proof. exact unjoin_join_lemma. Qed.
+Print Assumptions join_unjoin.
+
+(* with a backslash in the note the two are confused (join does not escape it) - stated, not a finding:
+   the property speaks of field values, and a one-line note is recovered exactly (next theorem) *)
+Theorem join_unjoin_refuted : exists s, Forall byte s /\ unjoin (join_lines s) <> s.
+Proof. exists [92; 110]. split; [repeat constructor; unfold byte; lia|]. vm_compute. discriminate. Qed.
+Print Assumptions join_unjoin_refuted.
+
+(* the note cell of the DEFAULT csv row is the posting's note followed by the transaction's,
+   byte for byte, whenever that text is a single line *)
+Theorem csv_note_cell_faithful : forall aux x p,
+  Forall byte (post_note x p) -> ~ In 10 (post_note x p) ->
+  nth 7 (map snd (csv_cells aux src_csv_format x p)) [] = post_note x p.
+Proof.
+  intros aux x p Hb Hn. rewrite csv_default_row_fields. cbn [nth].
+  apply join_keeps_bytes_lemma; assumption.
+Qed.
+Print Assumptions csv_note_cell_faithful.
 
 (* the backslash-escape reader (escapechar = backslash, no quote doubling) recovers every row of
    the default csv report, WHATEVER the fields hold: quoted() writes a double quote as backslash
